@@ -9,6 +9,7 @@ package dochandler
 import (
 	"fmt"
 	"net/http"
+	"net/url"
 	"strings"
 	"time"
 
@@ -105,12 +106,19 @@ var getID = func(req *http.Request) string {
 func getResolutionOptions(req *http.Request) ([]document.ResolutionOption, error) {
 	var resolutionOpts []document.ResolutionOption
 
-	versionID := req.URL.Query().Get(versionIDParam)
+	// URL.Query() silently drops parameters that cannot be parsed (a ';' or a bad percent escape in the value):
+	// a request for a particular version would then be answered with the latest one
+	query, err := url.ParseQuery(req.URL.RawQuery)
+	if err != nil {
+		return nil, fmt.Errorf("invalid query: %s", err.Error())
+	}
+
+	versionID := query.Get(versionIDParam)
 	if versionID != "" {
 		resolutionOpts = append(resolutionOpts, document.WithVersionID(versionID))
 	}
 
-	versionTime := req.URL.Query().Get(versionTimeParam)
+	versionTime := query.Get(versionTimeParam)
 	if versionTime != "" {
 		resolutionOpts = append(resolutionOpts, document.WithVersionTime(versionTime))
 	}
